@@ -1262,10 +1262,11 @@ mod race {
     fn interior(name: &str) -> bool { name != "start" && !name.ends_with(":before-lock") }
 
     #[derive(Clone, Debug, PartialEq)]
-    pub enum Api { Sig(u8, u16), Reset, Pair(u8, u16) }
+    /// `Pkt`: the second thread is another `receive()` (the RTCP-socket reader task of a non-mux call delivers to the same `IceConn`)
+    pub enum Api { Sig(u8, u16), Reset, Pair(u8, u16), Pkt(u8, u16, Vec<u8>) }
     pub struct RaceCase { pub setup: Case, pub pkt: (u8, u16, Vec<u8>), pub api: Api, pub sched: String }
 
-    fn api_text(a: &Api) -> String { match a { Api::Sig(i, p) => format!("sg,{i},{p}"), Api::Reset => "rs".into(), Api::Pair(i, p) => format!("pr,{i},{p}") } }
+    fn api_text(a: &Api) -> String { match a { Api::Sig(i, p) => format!("sg,{i},{p}"), Api::Reset => "rs".into(), Api::Pair(i, p) => format!("pr,{i},{p}"), Api::Pkt(i, p, b) => format!("p,{i},{p},{}", hex(b)) } }
     pub fn text(c: &RaceCase) -> String {
         format!("race {} | p,{},{},{} | {} | {}", case_text(&c.setup), c.pkt.0, c.pkt.1, hex(&c.pkt.2), api_text(&c.api), c.sched)
     }
@@ -1273,7 +1274,7 @@ mod race {
         let parts: Vec<&str> = s.trim_start_matches("race ").split(" | ").collect();
         let setup = parse_case(parts[0]);
         let pk = match &parse_case(&format!("init,0,0,0,0 {}", parts[1])).ops[0] { Op::Pkt(i, p, b) => (*i, *p, b.clone()), _ => panic!() };
-        let api = match &parse_case(&format!("init,0,0,0,0 {}", parts[2])).ops[0] { Op::Sig(i, p) => Api::Sig(*i, *p), Op::Reset => Api::Reset, Op::Pair(i, p) => Api::Pair(*i, *p), _ => panic!() };
+        let api = match &parse_case(&format!("init,0,0,0,0 {}", parts[2])).ops[0] { Op::Sig(i, p) => Api::Sig(*i, *p), Op::Reset => Api::Reset, Op::Pair(i, p) => Api::Pair(*i, *p), Op::Pkt(i, p, b) => Api::Pkt(*i, *p, b.clone()), _ => panic!() };
         RaceCase { setup, pkt: pk, api, sched: parts[3].to_string() }
     }
 
@@ -1295,7 +1296,8 @@ mod race {
     }
     fn do_api(conn: &IceConn, a: &Api) { match a {
         Api::Sig(i, p) => hook::set_remote_addr_from_signaling(conn, sa(*i, *p)), Api::Reset => conn.reset_latch(),
-        Api::Pair(i, p) => hook::set_remote_addr_from_selected_pair(conn, sa(*i, *p)) } }
+        Api::Pair(i, p) => hook::set_remote_addr_from_selected_pair(conn, sa(*i, *p)),
+        Api::Pkt(i, p, b) => do_pkt(conn, &(*i, *p, b.clone())) } }
     fn do_pkt(conn: &IceConn, pk: &(u8, u16, Vec<u8>)) {
         let rt = tokio::runtime::Builder::new_current_thread().build().unwrap();
         let mut mb = vec![];
@@ -1411,7 +1413,9 @@ mod race {
     pub fn run(run: &mut Run, args: &Args) {
         let bits = if args.tier_thorough { 9 } else { 7 };
         for (name, setup, pk) in setups() {
-            for api in [Api::Sig(SIG.0, SIG.1), Api::Reset, Api::Pair(PAIR.0, PAIR.1), Api::Pair(SRC[1].0, SRC[1].1)] {
+            // the second thread: each latch API call, or a SECOND receive() (other source: with a marker / continuing nothing)
+            for api in [Api::Sig(SIG.0, SIG.1), Api::Reset, Api::Pair(PAIR.0, PAIR.1), Api::Pair(SRC[1].0, SRC[1].1),
+                        Api::Pkt(SRC[2].0, SRC[2].1, rtp(true, 3, 3, SSRC)), Api::Pkt(SRC[1].0, SRC[1].1, rtp(false, 77, 77, SSRC))] {
                 for idx in 0..(1u32 << bits) {
                     let sched: String = (0..bits).map(|k| if idx >> k & 1 == 0 { 'r' } else { 's' }).collect();
                     let c = RaceCase { setup: Case { init: setup.init, maxp: setup.maxp, tcp: false, ops: setup.ops.clone() }, pkt: pk.clone(), api: api.clone(), sched };
@@ -1425,7 +1429,7 @@ mod race {
                             for (sig, d) in &ro.violations { run.fail(sig, &t, d); }
                             let ser = serial(&c);
                             if out != ser[0] && out != ser[1] {
-                                run.fail(&format!("race:{}:outcome-not-serializable", match api { Api::Sig(..) => "signaling-retarget", Api::Reset => "reset", Api::Pair(..) => "pair-update" }),
+                                run.fail(&format!("race:{}:outcome-not-serializable", match api { Api::Sig(..) => "signaling-retarget", Api::Reset => "reset", Api::Pair(..) => "pair-update", Api::Pkt(..) => "second-receive" }),
                                     &t, &format!("{name}: outcome {out}; receive-then-api {}; api-then-receive {}", ser[0], ser[1]));
                             } else { run.count(if out == ser[0] && out == ser[1] { "race_outcome_same_in_both_orders" } else if out == ser[0] { "race_outcome_receive_first" } else { "race_outcome_api_first" }); }
                         }
